@@ -67,6 +67,9 @@ func c10Tree(r *Run, what string, e ast.Expr) {
 	if ExprSx(e) != before {
 		r.Violate("input-mutated", what, "Desugar changed its argument")
 	}
+	if d1b, ok := safeDesugar(e); !ok || ExprSx(d1b) != ExprSx(d) {
+		r.Violate("second-desugaring-of-the-same-tree-differs", what, fmt.Sprintf("first %s, second %s", d, d1b))
+	}
 	if !coreOnly(d) {
 		r.Violate("not-core", what, "a sugar node survives desugaring")
 	}
@@ -112,7 +115,9 @@ func runC10(r *Run) {
 		return implParseToks(tb, toks)
 	}
 	for _, c := range []string{"(o.f)(1)", "o.f(1)", "a ? b : c", "-a", "a + b * c", "(a)", "((a))(b)", "x.f(1)(2)", "a.b.c(d)", "[1, (2)]", "[(1): -2]", "{p: (a ? b : c)}",
-		"a[(1)]", "(a)[1]", "!a.b", "f((1))", "(f)(1)", "a.f().g()", "(a.f)().g", "o.f", "(o.f)", "((o.f))(1)(2)"} {
+		"a[(1)]", "(a)[1]", "!a.b", "f((1))", "(f)(1)", "a.f().g()", "(a.f)().g", "o.f", "(o.f)", "((o.f))(1)(2)",
+		"o.f(a, b, c)", "o.f(a + 1, b + 1, c + 1)", "o.f(1, 2, 3, 4, 5)", "x.f(a, b, c, d, e, f)", "o.f(a, b, c, d, e, f, g)", "o.f(1, 2, 3, 4, 5, 6, 7, 8, 9)", "o.f(-a, (b), c ? d : e)",
+		"o.f(a, b, c).g(d, e, f)", "f(a, b, c)", "f(a, b, c, d, e)", "o.f(a)", "o.f(a, b)", "o.f(a, b, c, d)", "o.f(a, b, c, d, e, f, g, h)"} {
 		if e, ok := parse(builtin, c); ok {
 			c10Tree(r, fmt.Sprintf("%q", c), e)
 			r.Sample(fmt.Sprintf("%q", c))
